@@ -542,7 +542,7 @@ def r17_21(run, model):
                    f"type argument: {src[:140]}",
                    witness="package Codec: trait Enc, impl Enc for int32, fn frame[T: Enc](x: T); package Main adds impl Enc for Token and calls "
                            "frame(tok): frame__T_Token calls the int32 impl with a Token")
-    run.floor("impl function names built by the match compiler", n, 2)
+    run.floor("impl function names built by the match compiler", n, 3)
 
 
 def run(run, model):
